@@ -105,8 +105,8 @@ func main() {
 				ops = allOps
 				atomic.AddInt64(&smallStates, 1)
 			}
-			// key-removal raw dumps in the smallest states: at most one value in
-			// all (quick, 11 states) / at most one value per key (thorough, 36 states)
+			// key-removal raw dumps (operations of <=2 lines) in the smallest states: at most one
+			// value in all (quick, 11 states) / at most one value per key (thorough, 36 states)
 			tiny := len(s[0]) <= 1 && len(s[1]) <= 1 && (r.Thorough() || len(s[0])+len(s[1]) <= 1)
 			sampleJ := (i * 7919) % len(ops)
 			for j, o := range ops {
@@ -116,7 +116,7 @@ func main() {
 					return
 				}
 				useCB := o.kind == opBatch && (i+j)%createBatchEvery == 0 && os.Getenv("C15_NOCB") == ""
-				got, legal := w.step(s, o, useCB, fullSeen, tiny)
+				got, legal := w.step(s, o, useCB, fullSeen, tiny && len(o.e) <= 2)
 				if j == sampleJ {
 					results[i].sample = fmt.Sprintf("depth %d: %s --%s--> %s (matches the model: %v)", d, s.content(), o, got, legal)
 				}
@@ -222,7 +222,7 @@ func main() {
 	r.Set("states_skipped_install_failed", skippedStates)
 	r.Set("failing_cases_total", totalFail)
 	r.Set("failing_cases_minimal", minimal)
-	r.Set("rule", fmt.Sprintf("level-synchronous BFS from the empty store to the fixed point; state = content of keys {k1,k2} as read from the REAL store, canonical within <=%d values per key over 5 values (156^2 states). In every state: 10 Add, 10 Del and every sequence of 0..%d add/del lines as one batch; in every state with <=%d values per key additionally every sequence of %d lines (order and duplicates included). Each operation is executed on a real rdb.RDB that was brought into the state with the store's own Add/Del and read back; afterwards the error/no-error outcome and ForEach on every key (Find/FindFirst agreement once per distinct successor content of a state) are compared with the model (Add: appended; Del: exactly one equal value gone, rest in order, fails without effect if absent; batch: all additions then all deletions, named keys compared as multisets, other keys exactly, fails iff a deletion has no target and then changes nothing). In the smallest states (quick: <=1 value in all, 11 states; thorough: <=1 value per key, 36 states), after every successful operation that leaves a key it names without values the store is closed and dumped raw: the key must be gone. Successors with >%d values under a key are checked but not expanded. At every state of depth <=%d the store is closed, dumped raw, backed up with rdb.Backup and restored with rdb.Restore into another directory, which must hold the same map (raw dump and a real RDB on it); at depth <=%d a second backup generation into the same backup directory is restored into a fresh and over the existing directory. nontrivial = transitions whose expected outcome is a changed map", maxPerKey, baseBatch, smallPerKey, maxBatch, maxPerKey, backupDepth, gen2Depth))
+	r.Set("rule", fmt.Sprintf("level-synchronous BFS from the empty store to the fixed point; state = content of keys {k1,k2} as read from the REAL store, canonical within <=%d values per key over 5 values (156^2 states). In every state: 10 Add, 10 Del and every sequence of 0..%d add/del lines as one batch; in every state with <=%d values per key additionally every sequence of %d lines (order and duplicates included). Each operation is executed on a real rdb.RDB that was brought into the state with the store's own Add/Del and read back; afterwards the error/no-error outcome and ForEach on every key (Find/FindFirst agreement once per distinct successor content of a state) are compared with the model (Add: appended; Del: exactly one equal value gone, rest in order, fails without effect if absent; batch: all additions then all deletions, named keys compared as multisets, other keys exactly, fails iff a deletion has no target and then changes nothing). In the smallest states (quick: <=1 value in all, 11 states; thorough: <=1 value per key, 36 states), after every successful operation of <=2 lines that leaves a key it names without values the store is closed and dumped raw: the key must be gone. Successors with >%d values under a key are checked but not expanded. At every state of depth <=%d the store is closed, dumped raw, backed up with rdb.Backup and restored with rdb.Restore into another directory, which must hold the same map (raw dump and a real RDB on it); at depth <=%d a second backup generation into the same backup directory is restored into a fresh and over the existing directory. nontrivial = transitions whose expected outcome is a changed map", maxPerKey, baseBatch, smallPerKey, maxBatch, maxPerKey, backupDepth, gen2Depth))
 	r.Assume = []string{
 		"RocksDB itself (memtable, flush, compaction, backup engine) is executed, not modelled",
 		"the store's future behaviour depends only on the bytes under each key, which ForEach observes completely (a malformed tail is a ForEach error); equal observations are therefore merged although reached through different physical histories",
